@@ -25,7 +25,7 @@ def plan(tier, seed):
     parts = [p for p in C1.w_parts(tier) if p.sel.get("op") not in ("set_node", "copy_into_patch", "set_delvalue")]
     # container level: the same action sequences through both drivers against one reference model
     from vt.runner import Part
-    import vt.harness.cont as HK  # noqa
+    import vt.contactions as HK  # noqa
     k = 2 if tier == "quick" else 3
     for drv in ("h5", "ih5"):
         for first in range(len(HK.ACTIONS)):
